@@ -211,8 +211,8 @@ func (a Int) M__repr__() (Object, error) {
 
 // Errors
 var (
-	divisionByZero     = ExceptionNewf(ZeroDivisionError, "division by zero")
-	negativeShiftCount = ExceptionNewf(ValueError, "negative shift count")
+	divisionByZero     = ExceptionTemplatef(ZeroDivisionError, "division by zero")
+	negativeShiftCount = ExceptionTemplatef(ValueError, "negative shift count")
 )
 
 // Constructs a TypeError
